@@ -235,3 +235,22 @@ def compile_term(t, names: Dict[tuple, str]):
     glb = {"__builtins__": {}, "max": max, "min": min, "abs": abs, "int": int, "float": float, "bool": bool,
            "round": round, "_floor": math.floor, "_ceil": math.ceil}
     return (lambda env: eval(code, glb, env)), src  # noqa: S307 - evaluates the analyser's own formula text
+
+
+# string methods on constants (used to fold `position.split("-")` and the like)
+def fold_str_methods(t):
+    if not isinstance(t, tuple) or not t or not isinstance(t[0], str):
+        if isinstance(t, tuple):
+            return tuple(fold_str_methods(c) for c in t)
+        return t
+    t = tuple(fold_str_methods(c) if isinstance(c, tuple) else c for c in t)
+    if t[0] == "call" and t[1][0] == "attr" and t[1][1][0] == "const" and isinstance(t[1][1][1], str) \
+            and t[1][2] in ("split", "lower", "upper", "strip") and all(a[0] == "const" for a in t[2]) and not t[3]:
+        try:
+            v = getattr(t[1][1][1], t[1][2])(*[a[1] for a in t[2]])
+        except Exception:  # noqa: BLE001
+            return t
+        if isinstance(v, list):
+            return ("list", tuple(("const", x) for x in v))
+        return ("const", v)
+    return t
